@@ -125,10 +125,13 @@ func runC15(c *Ctx) {
 		c.Violate("R15.2", "expected:ref-sites", "module", fmt.Sprintf("%d ref-moving call sites outside package repository (reference 10)", nRef))
 	}
 	checkRefspecs(c)
+	checkFetchPushOptions(c)
 	checkSubcacheNamespaces(c)
 	checkFileWriters(c)
 	checkConfigKeys(c)
 	checkStoreTree(c)
+	checkTreeModes(c)
+	checkRootDirs(c)
 	checkTreeNamesAndGitDir(c)
 }
 
@@ -909,6 +912,8 @@ func runC14(c *Ctx) {
 			c.Check(!bad, "R14.2", "SubCache."+m+":"+k, w.FnPos(fn), "on every success path", "SubCache."+m+" can succeed without "+k+": "+blocksString(w, p))
 		}
 	}
+	checkForgetsAfterRemoval(c, "R14.2")
+	checkGetRemotesComplete(c)
 
 	// R14.3
 	rw := w.Func("commands", "runWipe")
@@ -1592,4 +1597,429 @@ func refTemplatesThroughCallers(w *World, fn *ssa.Function, arg ssa.Value, depth
 		}
 	}
 	return dedupT(out)
+}
+
+// checkForgetsAfterRemoval: the cache forgets an entity only once its references are gone: a removal that
+// failed half-way must leave the entity addressable (and removable again) in this session. Shared with C13
+// (every prefix of the id of an existing entity resolves).
+func checkForgetsAfterRemoval(c *Ctx, rule string) {
+	w := c.W
+	isCall := func(pred func(n string, cl *Call) bool) func(ssa.Instruction) bool {
+		return func(i ssa.Instruction) bool {
+			ci, ok := i.(ssa.CallInstruction)
+			if !ok {
+				return false
+			}
+			n, _ := callName(ci.Common())
+			return pred(n, &Call{Instr: ci})
+		}
+	}
+	removalP := func(i ssa.Instruction) bool {
+		ci, ok := i.(ssa.CallInstruction)
+		if !ok {
+			return false
+		}
+		n, _ := callName(ci.Common())
+		return n == "cache.Actions.Remove" || n == "cache.Actions.RemoveAll" || hasField(ci.Common().Value, "Remove") || hasField(ci.Common().Value, "RemoveAll")
+	}
+	forget := map[string]func(ssa.Instruction) bool{
+		"delete-cached":   deleteOf("cached"),
+		"delete-excerpts": deleteOf("excerpts"),
+		"lru-remove": isCall(func(n string, cl *Call) bool {
+			return strings.HasSuffix(n, ".Remove") && cl.Recv() != nil && strings.Contains(valueKey(cl.Recv()), ".lru")
+		}),
+		"index-removal": isCall(func(n string, cl *Call) bool { return n == "repository.Index.Remove" || n == "repository.Index.Clear" }),
+	}
+	for _, m := range []string{"Remove", "RemoveAll"} {
+		fn := w.Method("cache", "SubCache", m)
+		if fn == nil {
+			c.Undecided(rule, "anchor:SubCache."+m, "cache", "not found")
+			continue
+		}
+		c.seeFn(funcName(fn))
+		var removal *ssa.Call
+		for _, cl := range Calls(fn) {
+			if removalP(cl.Instr) {
+				removal, _ = cl.Instr.(*ssa.Call)
+			}
+		}
+		if removal == nil {
+			c.Undecided(rule, "SubCache."+m+":forgets-only-after-the-refs-are-gone", w.FnPos(fn), "no entity-level removal call found")
+			continue
+		}
+		early, n := "", 0
+		for _, b := range fn.Blocks {
+			for _, ins := range b.Instrs {
+				for _, k := range []string{"delete-cached", "delete-excerpts", "lru-remove", "index-removal"} {
+					if forget[k](ins) {
+						c.Sites++
+						n++
+						if !dominatedBySuccess(removal, ins) {
+							early = k + " at " + w.InstrPos(ins)
+						}
+					}
+				}
+			}
+		}
+		c.Check(early == "" && n >= 3, rule, "SubCache."+m+":forgets-only-after-the-refs-are-gone", w.FnPos(fn), fmt.Sprintf("%d in-memory and index deletions, each dominated by the success of the entity removal", n),
+			"SubCache."+m+" performs "+early+" before the removal of the references has succeeded: when that removal fails the entity still exists in git (and on the remotes' tracking refs) but the session no longer knows it — every prefix of its id answers not-found and it cannot be removed again")
+	}
+}
+
+// lenCmpTaken: when block b ends in a comparison of len(x) (isArg(x)) with a constant, returns the
+// predicate "successor succ is taken when len(x) == n".
+func lenCmpTaken(b *ssa.BasicBlock, succ int, isArg func(ssa.Value) bool) (func(n int64) bool, bool) {
+	if len(b.Instrs) == 0 {
+		return nil, false
+	}
+	iff, isIf := b.Instrs[len(b.Instrs)-1].(*ssa.If)
+	if !isIf {
+		return nil, false
+	}
+	bo, isBo := iff.Cond.(*ssa.BinOp)
+	if !isBo || !isCmpOp(bo.Op) {
+		return nil, false
+	}
+	op, lenV, kV := bo.Op, bo.X, bo.Y
+	if _, isK := constInt(kV); !isK {
+		op, lenV, kV = swapOp(bo.Op), bo.Y, bo.X
+	}
+	k, isK := constInt(kV)
+	lc, isLen := lenV.(*ssa.Call)
+	if !isK || !isLen {
+		return nil, false
+	}
+	if bi, isB := lc.Common().Value.(*ssa.Builtin); !isB || bi.Name() != "len" || !isArg(lc.Common().Args[0]) {
+		return nil, false
+	}
+	return func(n int64) bool {
+		t := false
+		switch op {
+		case token.GTR:
+			t = n > k
+		case token.GEQ:
+			t = n >= k
+		case token.LSS:
+			t = n < k
+		case token.LEQ:
+			t = n <= k
+		case token.EQL:
+			t = n == k
+		case token.NEQ:
+			t = n != k
+		}
+		if succ == 0 {
+			return t
+		}
+		return !t
+	}, true
+}
+
+// R14.6: "every configured remote". The removal (and the clean-up of tracking refs) ranges over the keys
+// of GetRemotes(): a configured remote that GetRemotes leaves out keeps its tracking refs, and a merge
+// without a new fetch brings the removed entity back.
+func checkGetRemotesComplete(c *Ctx) {
+	w := c.W
+	c.Doc("R14.6", "GoGitRepo.GetRemotes reports every remote of the configuration that has a URL: the entry is added inside a range over cfg.Remotes, keyed by the remote's name, under no other condition than 'at least one URL'; no push path fetches (GoGitRepo.PushRefs and the entity-level Push reach no fetch): tracking refs re-appear only through an explicit fetch")
+	fn := w.Method("repository", "GoGitRepo", "GetRemotes")
+	if fn == nil {
+		c.Undecided("R14.6", "anchor:GoGitRepo.GetRemotes", "repository", "not found")
+		return
+	}
+	c.seeFn(funcName(fn))
+	n := 0
+	for _, b := range fn.Blocks {
+		for _, ins := range b.Instrs {
+			mu, ok := ins.(*ssa.MapUpdate)
+			if !ok {
+				continue
+			}
+			n++
+			c.Sites++
+			hdr := enclosingLoopHeader(b)
+			bad := ""
+			if hdr == nil {
+				bad = "the entry is not added inside a loop over the configured remotes"
+			} else {
+				// the key is the range key of a map field Remotes
+				okKey := false
+				if ex, isEx := mu.Key.(*ssa.Extract); isEx && ex.Index == 1 {
+					if nx, isNx := ex.Tuple.(*ssa.Next); isNx {
+						if rg, isRg := nx.Iter.(*ssa.Range); isRg && hasField(rg.X, "Remotes") {
+							okKey = true
+						}
+					}
+				}
+				if !okKey {
+					bad = "the entry is not keyed by the name of the remote being visited (range key of cfg.Remotes)"
+				}
+				for _, cc := range controlConds(b, hdr) {
+					if !inLoop(cc.If.Block(), hdr) || cc.If.Block() == hdr {
+						continue
+					}
+					taken, isLen := lenCmpTaken(cc.If.Block(), cc.Edge, func(v ssa.Value) bool { return hasField(v, "URLs") })
+					if !isLen {
+						bad = "the entry is added under a condition that is not a test of the number of URLs (" + w.InstrPos(cc.If) + ")"
+						continue
+					}
+					if !(taken(1) && taken(2) && taken(3) && taken(1<<20)) {
+						bad = "a remote is left out although it has a URL (condition at " + w.InstrPos(cc.If) + ")"
+					}
+				}
+			}
+			c.Check(bad == "", "R14.6", "GoGitRepo.GetRemotes:every-remote-with-a-url", w.InstrPos(mu), "every remote of cfg.Remotes with at least one URL is reported under its name",
+				bad+": the removal of an entity does not visit that remote, its tracking refs stay and a merge without a new fetch resurrects the entity")
+		}
+	}
+	c.Check(n == 1, "R14.6", "GoGitRepo.GetRemotes:one-entry-site", w.FnPos(fn), "one map insertion", fmt.Sprintf("%d map insertions found (one expected)", n))
+
+	// no push path fetches
+	isFetch := func(name string) bool {
+		return name == "repository.GoGitRepo.FetchRefs" || strings.HasSuffix(name, "git.Repository.Fetch") || strings.HasSuffix(name, "git.Remote.Fetch") || strings.HasSuffix(name, "git.Repository.FetchContext") || strings.HasSuffix(name, "git.Remote.FetchContext") || strings.HasSuffix(name, ".FetchRefs")
+	}
+	var pushFns []*ssa.Function
+	if f := w.Method("repository", "GoGitRepo", "PushRefs"); f != nil {
+		pushFns = append(pushFns, f)
+	}
+	if f := w.Func("entity/dag", "Push"); f != nil {
+		pushFns = append(pushFns, f)
+	}
+	if f := w.Func("entities/identity", "Push"); f != nil {
+		pushFns = append(pushFns, f)
+	}
+	if f := w.Method("cache", "RepoCache", "Push"); f != nil {
+		pushFns = append(pushFns, f)
+	}
+	c.Check(len(pushFns) == 4, "R14.6", "push:anchors", "module", "PushRefs, dag.Push, identity.Push, RepoCache.Push", fmt.Sprintf("only %d of the 4 push functions found", len(pushFns)))
+	for _, f := range pushFns {
+		c.seeFn(funcName(f))
+		bad := ""
+		for _, cl := range CallsDeep(f) {
+			c.Sites++
+			if isFetch(cl.Name) || callReaches(cl.Instr, isFetch, 2) {
+				bad = cl.Name + " at " + w.InstrPos(cl.Instr)
+			}
+		}
+		c.Check(bad == "", "R14.6", funcName(f)+":push-does-not-fetch", w.FnPos(f), "no fetch reachable from the push",
+			"the push reaches a fetch ("+bad+"): the tracking refs of entities removed locally are re-created without the user having fetched, and the next merge brings the removed entities back")
+	}
+}
+
+// R15.3 (options): what the fetch and the push may do besides moving the refs named by the refspecs.
+func checkFetchPushOptions(c *Ctx) {
+	w := c.W
+	// option fields that widen the effect of the transfer beyond the refspecs' additions/updates
+	widening := map[string]string{
+		"Prune":      "deletes every ref of the destination pattern that the other side does not have: refs/remotes/<remote>/bugs/* is shared with the tracking branches of host branches named bugs/…",
+		"Force":      "overwrites non-fast-forward refs for every refspec",
+		"FollowTags": "pushes annotated tags of the host repository",
+		"Atomic":     "",
+	}
+	n := 0
+	for _, m := range []string{"FetchRefs", "PushRefs"} {
+		fn := w.Method("repository", "GoGitRepo", m)
+		if fn == nil {
+			continue
+		}
+		set := map[string]bool{}
+		bad := ""
+		for _, b := range fn.Blocks {
+			for _, ins := range b.Instrs {
+				st, isSt := ins.(*ssa.Store)
+				if !isSt {
+					continue
+				}
+				fa, isFA := st.Addr.(*ssa.FieldAddr)
+				if !isFA {
+					continue
+				}
+				tn := typeShortName(fa.X.Type())
+				if !strings.HasSuffix(tn, "FetchOptions") && !strings.HasSuffix(tn, "PushOptions") {
+					continue
+				}
+				n++
+				c.Sites++
+				f := fieldName(fa)
+				set[f] = true
+				if why, isW := widening[f]; isW && why != "" {
+					if k, isK := st.Val.(*ssa.Const); !isK || k.Value == nil || k.Value.String() != "false" {
+						bad = tn + "." + f + " is set at " + w.InstrPos(st) + ": it " + why
+					}
+				}
+			}
+		}
+		var fields []string
+		for f := range set {
+			fields = append(fields, f)
+		}
+		sort.Strings(fields)
+		c.Check(bad == "", "R15.3", "GoGitRepo."+m+":options-do-not-widen", w.FnPos(fn), "options set: "+strings.Join(fields, ", ")+"; no Prune / Force / FollowTags", bad)
+	}
+	c.Check(n >= 6, "R15.3", "expected:transfer-option-stores", "repository", fmt.Sprintf("%d option fields examined", n), fmt.Sprintf("only %d fetch/push option stores found (reference 7)", n))
+}
+
+// R15.6 (modes): every entry of a stored tree gets the mode of its own object type.
+func checkTreeModes(c *Ctx) {
+	w := c.W
+	fn := w.Method("repository", "GoGitRepo", "StoreTree")
+	if fn == nil {
+		return // reported by checkStoreTree
+	}
+	n := 0
+	for _, b := range fn.Blocks {
+		for _, ins := range b.Instrs {
+			st, isSt := ins.(*ssa.Store)
+			if !isSt {
+				continue
+			}
+			fa, isFA := st.Addr.(*ssa.FieldAddr)
+			if !isFA || fieldName(fa) != "Mode" || !strings.HasSuffix(typeShortName(fa.X.Type()), "object.TreeEntry") {
+				continue
+			}
+			n++
+			c.Sites++
+			hdr := enclosingLoopHeader(b)
+			key := "GoGitRepo.StoreTree:mode-of-each-entry"
+			// interpretable form: constants selected by tests made in this iteration
+			bad, interpretable := "", true
+			seen := map[ssa.Value]bool{}
+			var walk func(v ssa.Value)
+			walk = func(v ssa.Value) {
+				if seen[v] {
+					return
+				}
+				seen[v] = true
+				switch x := v.(type) {
+				case *ssa.Const:
+				case *ssa.Phi:
+					if hdr != nil && x.Block() == hdr {
+						bad = "the mode is carried over from the previous entry (a variable initialised before the loop): once a sub-tree was seen, every following blob is recorded with the directory mode, and git refuses the tree ('bad tree object')"
+						return
+					}
+					if hdr != nil && !inLoop(x.Block(), hdr) {
+						interpretable = false
+						return
+					}
+					for _, e := range x.Edges {
+						walk(e)
+					}
+				default:
+					interpretable = false
+				}
+			}
+			walk(st.Val)
+			if bad != "" {
+				c.Violate("R15.6", key, w.InstrPos(st), bad)
+			} else if !interpretable {
+				c.Info("R15.6", key, w.InstrPos(st), "the mode is not a per-iteration choice between constants: not interpreted")
+			} else {
+				// the directory mode exactly for ObjectType == Tree
+				dirOK := false
+				if ph, isPhi := st.Val.(*ssa.Phi); isPhi {
+					for i, e := range ph.Edges {
+						k, isK := e.(*ssa.Const)
+						if !isK || k.Value == nil {
+							continue
+						}
+						if v, okV := constInt(k); okV && v == 0o040000 {
+							pb := ph.Block().Preds[i]
+							for _, cc := range controlConds(pb, hdr) {
+								if bo, isBo := cc.If.Cond.(*ssa.BinOp); isBo && bo.Op == token.EQL && cc.Edge == 0 && (hasField(bo.X, "ObjectType") || hasField(bo.Y, "ObjectType")) {
+									dirOK = true
+								}
+							}
+						}
+					}
+				}
+				c.Check(dirOK, "R15.6", key, w.InstrPos(st), "Regular by default, Dir on the ObjectType == Tree edge, decided per entry", "the directory mode is not selected by the entry's own ObjectType == Tree test")
+			}
+		}
+	}
+	c.Check(n == 1, "R15.6", "GoGitRepo.StoreTree:mode-store-found", w.FnPos(fn), "one store of TreeEntry.Mode", fmt.Sprintf("%d stores of TreeEntry.Mode found (one expected)", n))
+}
+
+// R15.11: directories git-bug derives its own storage from are used only when they could be determined.
+func checkRootDirs(c *Ctx) {
+	w := c.W
+	c.Doc("R15.11", "the result of os.UserConfigDir / UserHomeDir / UserCacheDir / Getwd / filepath.Abs / EvalSymlinks in the packages of the git-bug binary is used only when its error was tested or returned (an undetermined directory is the empty string: paths built from it are relative to the current directory, i.e. inside the host work tree); the keyring's FileDir is rooted at os.UserConfigDir()")
+	roots := map[string]bool{"os.UserConfigDir": true, "os.UserHomeDir": true, "os.UserCacheDir": true, "os.Getwd": true, "path/filepath.Abs": true, "path/filepath.EvalSymlinks": true}
+	inBinary := func(p string) bool {
+		for _, pre := range []string{"repository", "commands", "cache", "bridge", "entity", "entities", "api", "termui", "util", "query"} {
+			if p == modPath+"/"+pre || strings.HasPrefix(p, modPath+"/"+pre+"/") {
+				return true
+			}
+		}
+		return false
+	}
+	n := 0
+	for _, fn := range w.ModFns {
+		if isInstance(fn) || !inBinary(fnPkgPath(fn)) {
+			continue
+		}
+		for _, cl := range Calls(fn) {
+			if !roots[cl.Name] {
+				continue
+			}
+			cv, isCall := cl.Instr.(*ssa.Call)
+			if !isCall {
+				continue
+			}
+			n++
+			c.Sites++
+			c.seeFn(funcName(fn))
+			tested := false
+			for _, ev := range resultValues(cv, 1) {
+				nn, isn := nilTests(ev)
+				if len(nn)+len(isn) > 0 {
+					tested = true
+				}
+				for _, r := range *ev.Referrers() {
+					if _, isRet := r.(*ssa.Return); isRet {
+						tested = true
+					}
+				}
+			}
+			used := false
+			for _, pv := range resultValues(cv, 0) {
+				if len(*pv.Referrers()) > 0 {
+					used = true
+				}
+			}
+			c.Check(tested || !used, "R15.11", funcName(fn)+":"+cl.Name, w.InstrPos(cv), "the directory is used only after its error was tested",
+				"the directory answered by "+cl.Name+" is used although its error is dropped: when it cannot be determined the path is empty and what is joined to it lands relative to the current directory — inside the user's work tree")
+		}
+	}
+	c.Check(n >= 3, "R15.11", "expected:root-dir-sites", "module", fmt.Sprintf("%d sites", n), fmt.Sprintf("only %d root-directory calls found (reference 3)", n))
+	// the keyring
+	if fn := w.Func("repository", "defaultKeyring"); fn != nil {
+		c.seeFn(funcName(fn))
+		ok, found := false, false
+		for _, b := range fn.Blocks {
+			for _, ins := range b.Instrs {
+				st, isSt := ins.(*ssa.Store)
+				if !isSt {
+					continue
+				}
+				fa, isFA := st.Addr.(*ssa.FieldAddr)
+				if !isFA || fieldName(fa) != "FileDir" {
+					continue
+				}
+				found = true
+				c.Sites++
+				if jc, isCall := st.Val.(*ssa.Call); isCall {
+					if nm, _ := callName(jc.Common()); nm == "path/filepath.Join" {
+						for _, ev := range sliceElementValues(jc.Common().Args[0]) {
+							if cv := hasOriginCall(ev, "os.UserConfigDir", 0); cv != nil && dominatedBySuccess(cv, st) {
+								ok = true
+							}
+							break
+						}
+					}
+				}
+			}
+		}
+		c.Check(found && ok, "R15.11", "repository.defaultKeyring:rooted-at-the-user-config-dir", w.FnPos(fn), "FileDir = Join(<os.UserConfigDir(), on its success edge>, …)", "the keyring directory is not rooted at a successfully determined os.UserConfigDir()")
+	} else {
+		c.Undecided("R15.11", "anchor:repository.defaultKeyring", "repository", "not found")
+	}
 }
